@@ -237,6 +237,11 @@ def analyse_path(path, fn_name=None, extra_alloc=(), carried=()):
                 a = e2.args[0] if e2.args else None
                 if a is not None and (sym.norm(a) == sym.norm(base) or contains(sym.norm(base), sym.norm(a))):
                     container = True
+                # the object the field lives in was reached through an element of an array that is released: nothing
+                # can get at the field any more
+                b_ = base
+                if a is not None and b_[0] == 'ld' and sym.norm(a) == sym.norm(b_[1][1] if b_[1][0] == 'idx' else b_[1]) and sym.norm(a)[0] == 'ld':
+                    container = True          # (element 0 of an array is the array pointer dereferenced)
         if not overwritten and not container:
             findings.append(Finding('dangling', v, ev, '%s is released by %s() but the field %s still points to it when the function returns'
                                     % (sym.render(v), ev.name, sym.render(addr))))
